@@ -1,4 +1,5 @@
 import GoMailModel.Proofs.Plan
+import GoMailModel.Proofs.PlanOrder
 /-
   C12 — Render failures are reported: never a panic, never silent success.
   The model is total (no partial function, no `panic` branch): what Go could dereference after a
@@ -59,45 +60,44 @@ theorem success_count (s : MsgState) (e : Entropy) (hp : NoFailingProducers s) (
     (fun a ha => sinkOnly_noFault a (writeMsg_ok s e hp hb a ha)) rfl rfl
   simpa [rendering] using this
 
-/-- A failing producer is reported (first render: no `mw.err = SetBoundary(..)` assignment can clear it).
-    Partial: re-renders with cached boundaries are covered by the correspondence run only. -/
-theorem producer_failure_reported_partial (plan : List WAct) (limit : Option Nat)
+/-- A failing producer is reported, for every plan in which no `mw.err = SetBoundary(..)` assignment
+    follows (the only action that can take an error back). -/
+theorem producer_failure_reported_plan (plan : List WAct) (limit : Option Nat)
     (hnoclear : ∀ a ∈ plan, ∀ b, a ≠ .w (some false) b)
     (hfail : ∃ d b, WAct.body d b true ∈ plan) :
-    (exec plan { sink := { limit := limit } }).err = true := by
-  -- the error never goes back to false without a clearing action, and a failing producer sets it
-  have mono : ∀ (m : MW) (a : WAct), (∀ b, a ≠ .w (some false) b) → m.err = true → (step m a).err = true := by
-    intro m a hna he
-    cases a with
-    | w pre b =>
-      cases pre with
-      | none => simp [step, MW.guarded, he]
-      | some v =>
-        cases v with
-        | false => exact absurd rfl (hna b)
-        | true => simp [step, MW.guarded, MW.setErr]
-    | body d b pf => simp [step, he]
-  have sets : ∀ (m : MW) d b, (step m (.body d b true)).err = true := by
-    intro m d b
-    cases he : m.err with
-    | true => simp [step, he]
-    | false => cases d <;> simp [step, he, MW.setErr, MW.guarded, MW.put]
-  obtain ⟨d, b, hmem⟩ := hfail
-  have gen : ∀ (plan : List WAct) (m : MW), (∀ a ∈ plan, ∀ b, a ≠ .w (some false) b) →
-      (m.err = true ∨ WAct.body d b true ∈ plan) → (exec plan m).err = true := by
-    intro plan
-    induction plan with
-    | nil => intro m _ h; rcases h with h | h; exact h; cases h
-    | cons a as ih =>
-      intro m hn h
-      unfold exec; simp only [List.foldl_cons]
-      apply ih (step m a) (fun x hx => hn x (by simp [hx]))
-      rcases h with h | h
-      · exact Or.inl (mono m a (hn a (by simp)) h)
-      · rcases List.mem_cons.mp h with h | h
-        · subst h; exact Or.inl (sets m d b)
-        · exact Or.inr h
-  exact gen plan _ hnoclear (Or.inr hmem)
+    (exec plan { sink := { limit := limit } }).err = true :=
+  exec_err_of_fail plan _ hnoclear (Or.inr hfail)
+
+/-- **A producer fails at any point -> WriteTo returns a non-nil error.** For EVERY message state
+    (any number of parts and files, any boundaries - caller-chosen, cached from an earlier render,
+    valid or not -, with or without the S/MIME wrapper, first render or a later one), every entropy
+    and every destination (healthy, or failing at any offset): if the producer of a rendered body
+    part, of an embed or of an attachment fails - before or after it emitted data - the error of the
+    render is set when it ends. The reason is structural: every multipart is opened before the first
+    producer runs (`stageContent_ext`), so nothing after a producer can clear the error. -/
+theorem producer_failure_reported (s : MsgState) (e : Entropy) (outer signing : Bool) (limit : Option Nat)
+    (hfail : (∃ x ∈ s.parts.filter (fun x => !x.deleted && !x.smime), x.prod.fails = true) ∨
+      (∃ f ∈ s.embeds, f.prod.fails = true) ∨ (∃ f ∈ s.attachments, f.prod.fails = true)) :
+    (exec (writeMsg s e outer signing).1.acts { sink := { limit := limit } }).err = true :=
+  writeMsg_reports_producer_failure s e outer signing _ hfail
+
+/-- ... in terms of Msg.WriteTo on an unsigned message: the error flag of the result is set -/
+theorem writeTo_reports_producer_failure (s : MsgState) (e : Entropy) (limit : Option Nat) (hs : s.smime = false)
+    (hfail : (∃ x ∈ s.parts.filter (fun x => !x.deleted && !x.smime), x.prod.fails = true) ∨
+      (∃ f ∈ s.embeds, f.prod.fails = true) ∨ (∃ f ∈ s.attachments, f.prod.fails = true)) :
+    ∃ acc n st, writeTo s e limit = some (acc, n, true, st) := by
+  have h := producer_failure_reported s e false false limit hfail
+  unfold writeTo renderPlan
+  simp only [hs, Bool.false_eq_true, if_false]
+  exact ⟨_, _, _, by rw [h]⟩
+
+/-- non-vacuity: a message whose second part fails after emitting data -/
+example : ∃ acc n st, writeTo ({ parts := [
+      { ctype := sb "text/plain", charset := [], desc := [], enc := encQP, prod := { content := sb "hi" } },
+      { ctype := sb "text/html", charset := [], desc := [], enc := encB64, prod := { content := sb "<b>partial", fails := true } }] } : MsgState)
+    { date := sb "d", msgid := sb "m", bMixed := sb "M", bRelated := sb "R", bAlt := sb "A", bSigned := sb "S", signature := [] } (some 100) =
+    some (acc, n, true, st) :=
+  writeTo_reports_producer_failure _ _ _ rfl (Or.inl ⟨{ ctype := sb "text/html", charset := [], desc := [], enc := encB64, prod := { content := sb "<b>partial", fails := true } }, by simp, rfl⟩)
 
 /-- non-vacuity: a two-part message satisfies the hypotheses and has output to cut -/
 example : NoFailingProducers ({ parts := [{ ctype := sb "text/plain", charset := [], desc := [], enc := encQP, prod := { content := sb "hi" } }] } : MsgState) ∧
